@@ -12,6 +12,7 @@ interleavings are not explored: the rules establish the discipline that makes th
 from .. import effects
 from ..absint import NONE, State
 from ..astutil import FUNC_TYPES
+from ..objects import ObjectDomain
 from ..loader import AnalysisError
 from .common import TESTSUITE
 
@@ -77,7 +78,7 @@ def check_worker(ctx, clsname, stream):
             return [("val", NONE)]
         return None
 
-    dom = effects.EffectDomain(ctx.classes, attrs={"self": ("self",)}, results={"sys.exc_info": [EXCINFO]}, oracle=oracle,
+    dom = ObjectDomain(ctx.classes, attrs={"self": ("self",)}, results={"sys.exc_info": [EXCINFO]}, oracle=oracle,
                                ctors={"testtools.ErrorHolder", "ErrorHolder"}, log_cap=16)
     res = effects.run(ctx, dom, worker, cls, argv, state=State(), depth=4)
     Qn = f"{TESTSUITE}:{clsname}._run_test"
@@ -203,7 +204,7 @@ def run_coordinator(ctx, clsname, stream, schedule, interrupt_at=None):
         return None
 
     tests = ("tuple", ("tuple", A, RC_A), ("tuple", B, RC_B)) if stream else ("tuple", A, B)
-    dom = effects.EffectDomain(ctx.classes, attrs={"self": ("self",), "self._run_test": WORKER}, results={"self.make_tests": [tests]}, oracle=oracle,
+    dom = ObjectDomain(ctx.classes, attrs={"self": ("self",), "self._run_test": WORKER}, results={"self.make_tests": [tests]}, oracle=oracle,
                                ctors=CTORS, log_cap=40)
     dom.oracle_state = True
     dom.unique_ctors = True
